@@ -13,8 +13,9 @@ CT = {'i32': 'U32', 'i64': 'U64', 'f32': 'F32', 'f64': 'F64'}
 
 
 def escape(name):
-    if isinstance(name, bytes):
-        name = name.decode('latin-1')
+    if isinstance(name, str):
+        name = name.encode('utf-8')  # the escape is applied byte by byte to the UTF-8 encoding
+    name = name.decode('latin-1')
     out = []
     for i, c in enumerate(name):
         if c == '_':
